@@ -161,6 +161,12 @@ func Create(e QueryEngine, st storage.Queryable, sc *scn.Scenario) (promql.Query
 	return e.NewRangeQuery(st, qopts(sc), q, start, end, step)
 }
 
+// PreEpochSubMilli: the window is asked for with sub-millisecond fractions and begins before the epoch. The pinned
+// reference converts time.Time to milliseconds by truncating toward zero (UnixNano / 1e6: -5999.1 ms -> -5999), the
+// engine floors (UnixMilli: -6000): their step grids are a millisecond apart. A comparison made in that situation
+// carries this mark (KNOWN_FINDINGS: preepoch-subms).
+func PreEpochSubMilli(sc *scn.Scenario) bool { return subMilli(sc) && sc.Abs(sc.Start) < 0 }
+
 // subMilli: one scenario in four (by id) is asked for with sub-millisecond fractions on its window.
 func subMilli(sc *scn.Scenario) bool {
 	h := fnv.New32a()
